@@ -382,7 +382,7 @@ func (l *Loader) expandGlob(basePath, pattern string) ([]string, error) {
 	if err := CheckGlobComplexity(pattern); err != nil {
 		return nil, err
 	}
-	pattern = ConvertHledgerGlob(pattern)
+	pattern = ExpandHome(ConvertHledgerGlob(pattern))
 
 	if !filepath.IsAbs(pattern) {
 		pattern = filepath.Join(dir, pattern)
